@@ -435,6 +435,23 @@ def campaign(ctx):
                         body({"type": {"k": "con", "o": o, "c": c, "lax": lax, "m": "annotate"}, "value": v, "options": {}, "entry": ("call", "schema")[idx % 2], "part": "lax"})
                     except HarnessError:
                         ctx.label("grid_case_not_buildable")
+    # lax unique_items x sequences with duplicates among hashable, unhashable and equal-but-distinct items: enumerated completely
+    dups = [[1, 1], [1, True], [1, {"t": "float", "v": "1.0"}], [{"t": "list", "v": [1]}, {"t": "list", "v": [1]}], [{"t": "dict", "v": [["a", 1]]}, {"t": "dict", "v": [["a", 1]]}],
+            [{"t": "list", "v": [1]}, 2, {"t": "list", "v": [1]}], [{"t": "set", "v": [1]}, {"t": "set", "v": [1]}], [{"t": "list", "v": [1]}, {"t": "list", "v": [{"t": "float", "v": "1.0"}]}],
+            [{"t": "tuple", "v": [{"t": "list", "v": []}]}, {"t": "tuple", "v": [{"t": "list", "v": []}]}], ["a", "b", "a"], [{"t": "list", "v": []}, {"t": "list", "v": []}, {"t": "list", "v": []}], [1, 2, 3]]
+    for o in ("list", "tuple"):
+        for extra in ({}, {"min_length": 1}, {"max_length": 2}):
+            for items in dups:
+                for wrap in ("list", "tuple"):
+                    idx += 1
+                    if idx % ctx.nshards != ctx.shard:
+                        continue
+                    ctx.ev()
+                    try:
+                        body({"type": {"k": "con", "o": o, "c": dict({"unique_items": True}, **extra), "lax": ["unique_items"], "m": "annotate"}, "value": {"t": wrap, "v": items},
+                              "options": {}, "entry": ("call", "schema")[idx % 2], "part": "lax"})
+                    except HarnessError:
+                        ctx.label("grid_case_not_buildable")
     # unions whose earlier member could re-interpret a later member's output (the strict first stage prevents it), under every
     # spelling of the conversion flags - False spelled out included: enumerated completely
     L = lambda a: {"k": "list", "a": {"k": "leaf", "o": a}}
